@@ -23,6 +23,7 @@ var tiers = map[string][3]int{
 	"C19": {1500, 30000, 0},
 	"C13": {1500, 30000, 0},
 	"C20": {1500, 30000, 0},
+	"C08": {400, 8000, 0},
 }
 
 func tierOf(id string, thorough bool) tierCfg {
@@ -86,5 +87,9 @@ func init() {
 	props["C20"] = propCfg{
 		Rule:        "valid programs from the grammar-directed generator in pattern mode: table constructors reuse keys (k / [\"k\"] / [1] / [\"1\"] / K), binary expressions repeat their left operand, use `or true` / `and false` / `or false` / float and integer literals on the right, elseif conditions repeat the if condition, assignments repeat their target list as value list, parameter lists repeat a name or use `_`, local declarations and assignments have more / fewer values than targets — all at random depths (closures, constructors, call arguments, conditions). Only checks 1, 5, 7, 8, 13-16, 19-21 are enabled. Oracle: an independent pattern matcher over the reference parser's syntax tree computes the multiset of (check, line); every documented instance must be reported and nothing may be reported where the pattern does not occur; shapes the documentation is silent about (redundant parentheses, constant on the left, calls/operators in a shortfall, three equal keys/params/conditions, non-d.d float spellings, bracket-vs-dot keys) are accepted either way and counted. Non-trivial: a program with >= 1 hard instance; distinct by text.",
 		Assumptions: append([]string{refluaAssume, "reports are matched by check number and start line of the reported range (exact columns are C04's subject)"}, commonAssume...),
+	}
+	props["C08"] = propCfg{
+		Rule:        "model-based history generation over 2-4 files (one in a sub-directory) whose contents are drawn from fragments {clean, syntax error, unused local, defines the file's global, reads another file's global, requires another file, unfinished block}: actions create / change / delete of closed files (disk operation + didChangeWatchedFiles), open, edit without saving (full text or incremental), save (disk write + didSave), close (with or without unsaved edits); the model tracks disk contents, open buffers and dirty flags. After every action the publishDiagnostics stream is folded into the per-file view and compared (as a set of file, range, type, message) with (1) the view of a server freshly started on the model's disk contents when no buffer is dirty, and (2) for a dirty buffer: its own syntax errors (computed by a fresh server on the buffer text) if it has any, else the saved file's non-syntax diagnostics; files without unsaved edits must always equal the fresh view. Non-trivial: a history with a create or delete and an edit followed later by a save; distinct by history.",
+		Assumptions: append([]string{"a buffer counts as dirty from its first didChange until save / close, even if its text equals the saved text", "only closed files are created / changed / deleted externally"}, commonAssume...),
 	}
 }
